@@ -153,6 +153,13 @@ Cases ==
   \cup {[fam |-> "derived", q |-> r] : r \in Renamed}
   \cup {[fam |-> "sibling", q |-> UnaliasedOuter(ty)] : ty \in {"left", "right"}}
   \cup {[fam |-> "sibling", q |-> ShadowWith]}
+  \* a CTE named like the table of the document its body reads (a CTE is not recursive: inside its body the name
+  \* still means the document's table); a later CTE reading it; an inner WITH re-using the name of an outer CTE
+  \cup {[fam |-> "cte", q |-> [o EXCEPT !.with = <<[name |-> "t", q |-> SelQ(<<I(A), I(G)>>, T, CmpE(">", A, LN(1)))]>>]] : o \in Outers(T, <<>>)}
+  \cup {[fam |-> "chain", q |-> [SelQ(<<Star>>, D, None) EXCEPT !.with = <<[name |-> "t", q |-> SelQ(<<I(A), I(G)>>, T, CmpE(">", A, LN(1)))],
+                                                                         [name |-> "d", q |-> SelQ(<<I(G)>>, T, None)]>>]],
+        [fam |-> "derived", q |-> WithC(SelQ(<<I(A), I(G)>>, T, None),
+                                        SelQ(<<Star>>, Derived(WithC(SelQ(<<I(A)>>, C, CmpE(">", A, LN(1))), SelQ(<<Star>>, C, None)), "x"), None))]}
   \cup {[fam |-> "derived", q |-> AggOuter(Derived(AggInner, "x"), <<"x">>)], [fam |-> "cte", q |-> WithC(AggInner, AggOuter(C, <<>>))],
         [fam |-> "derived", q |-> AggOuter(Derived(AggOuter(Derived(AggInner, "y"), <<"y">>), "x"), <<"x">>)]}
   \* a CTE / a derived table over dual: one row made by the select list from the document itself
